@@ -9,7 +9,7 @@
     docs/C18.md enumerates the sites, harness/src/bin/c18.rs audits them statically and injects
     a failure at every k dynamically. *)
 From IndModel Require Import Base Text Draw Sys SimSpec.
-From IndProofs Require Import SimProofs.
+From IndProofs Require Import SimProofs SimStructProofs.
 From Coq Require Import List NArith.
 Import ListNotations.
 Open Scope N_scope.
@@ -53,6 +53,43 @@ Theorem C18_emit : forall fails ops c e c' ok,
 Proof. exact emit_spec. Qed.
 Print Assumptions C18_emit.
 
+(** C18_structure: [erase_io] forgets exactly last_line_count, cursor_below (of every terminal
+    target), zombie_lines_count and the call counter.  Everything else - the logic of all bars,
+    the refresh limiter AND the position limiter, target kinds, alignment, members, free list,
+    ordering, orphan lines - after one call is independent of the fault oracle: two states that
+    agree on the projection still agree after the same call under ANY two oracles. *)
+Theorem C18_structure_step : forall W H f1 f2 s1 s2 now o,
+  erase_io s1 = erase_io s2 ->
+  erase_io (fst (fst (step W H f1 s1 now o))) = erase_io (fst (fst (step W H f2 s2 now o))).
+Proof. exact step_structure. Qed.
+Print Assumptions C18_structure_step.
+
+(** ... hence over every history: the structure reached under faults is the structure of the
+    fault-free run.  The non-I/O panic sites of the Rust code (ordering.first().unwrap(),
+    position(..).unwrap(), members[idx], the "Draw state is inconsistent" assertion) read only
+    this structure: a failing terminal cannot steer the code into one of them. *)
+Theorem C18_structure : forall W H fails s ops,
+  erase_io (fst (run W H fails s ops)) = erase_io (fst (run W H no_faults s ops)).
+Proof. exact faults_do_not_touch_structure. Qed.
+Print Assumptions C18_structure.
+
+(** what the projection keeps *)
+Theorem C18_structure_keeps : forall s,
+  map logic_of (s_bars (erase_io s)) = bars_logic s /\
+  map (fun b => match b_target b with TTerm t => Some (tt_rl t, tt_align t) | _ => None end) (s_bars (erase_io s))
+  = map (fun b => match b_target b with TTerm t => Some (tt_rl t, tt_align t) | _ => None end) (s_bars s) /\
+  ms_members (s_mp (erase_io s)) = ms_members (s_mp s) /\ ms_free (s_mp (erase_io s)) = ms_free (s_mp s) /\
+  ms_order (s_mp (erase_io s)) = ms_order (s_mp s) /\ ms_orphans (s_mp (erase_io s)) = ms_orphans (s_mp s) /\
+  ms_align (s_mp (erase_io s)) = ms_align (s_mp s) /\
+  match ms_target (s_mp (erase_io s)), ms_target (s_mp s) with
+  | TTerm a, TTerm b => tt_rl a = tt_rl b /\ tt_align a = tt_align b
+  | THidden, THidden => True
+  | TMulti i, TMulti j => i = j
+  | _, _ => False
+  end.
+Proof. exact erase_io_keeps. Qed.
+Print Assumptions C18_structure_keeps.
+
 (** Non-vacuity: a history on a MultiProgress in which call 3 fails: mp.println reports the
     error, later calls work, positions are those of the fault-free run while the calls that
     reach the terminal differ. *)
@@ -68,5 +105,7 @@ Example C18_nonvacuous :
   run_oks 20 10 ex18_fails ex18_sys ex18_ops = [true; true; false; true; false; true] /\
   run_oks 20 10 no_faults ex18_sys ex18_ops = [true; true; true; true; true; true] /\
   snd (run 20 10 ex18_fails ex18_sys ex18_ops) <> snd (run 20 10 no_faults ex18_sys ex18_ops) /\
-  map (map l_pos) (run_logics 20 10 ex18_fails ex18_sys ex18_ops) = [[0]; [3]; [3]; [3]; [3]; [10]].
-Proof. vm_compute. repeat split. discriminate. Qed.
+  map (map l_pos) (run_logics 20 10 ex18_fails ex18_sys ex18_ops) = [[0]; [3]; [3]; [3]; [3]; [10]] /\
+  fst (run 20 10 ex18_fails ex18_sys ex18_ops) <> fst (run 20 10 no_faults ex18_sys ex18_ops) /\
+  erase_io (fst (run 20 10 ex18_fails ex18_sys ex18_ops)) = erase_io (fst (run 20 10 no_faults ex18_sys ex18_ops)).
+Proof. vm_compute. repeat split; discriminate. Qed.
